@@ -99,6 +99,12 @@ def run(chk, ctx):
                         and not callee.startswith("__"):
                     helpers.add(callee)
                     todo.append(callee)
+        # helpers that the load-time normalisation placed into the generator (their only call sites were there) and that
+        # are called from no other method
+        for r_, owner_, h_ in getattr(repo, "inlined_helpers", []):
+            if r_ == rel and owner_ == "_iterator" and h_ in methods and h_.startswith("_") and not h_.startswith("__") \
+                    and not any(h_ in self_calls(f_) for m_, f_ in methods.items() if m_ != "_iterator"):
+                helpers.add(h_)
         for h in list(helpers):
             callers = {m for m, f in methods.items() if h in self_calls(f)}
             if not callers <= helpers | {"_iterator"}:
